@@ -70,6 +70,73 @@ def doc_sections(docs, names=("Errors", "Accounts")):
     return " ".join(out)
 
 
+CLOSE_TRAIT = "programs/store/src/utils/internal/action.rs"
+PREPROCESS = ("if * self . authority ( ) . key == self . action ( ) . load ( ) ? . header ( ) . owner { Ok ( true ) } else { "
+              "self . only_role ( self . expected_keeper_role ( ) ) ? ; { let action = self . action ( ) . load ( ) ? ; "
+              "if self . skip_completion_check_for_keeper ( ) ? || action . header ( ) . action_state ( ) ? . is_completed_or_cancelled ( ) "
+              "{ Ok ( false ) } else { err ! ( CoreError :: PermissionDenied ) } } }")
+_close_checked = []
+
+
+def check_close_trait():
+    """`Close::close` runs `validate()?` then `preprocess()?` before anything else; `preprocess` is the
+    owner-or-keeper policy (canonical text)."""
+    if _close_checked: return
+    a = Src(CLOSE_TRAIT)
+    pre = a.find_fn("preprocess", nested=True)
+    if a.text_of(*pre["body"]) != PREPROCESS:
+        die(f"{a.rel}:{pre['line']}: Close::preprocess is no longer the owner-or-keeper policy: `{a.text_of(*pre['body'])}`")
+    cl = a.find_fn("close", nested=True)
+    t = a.text_of(*cl["body"])
+    if not t.startswith("let accounts = & ctx . accounts ; accounts . validate ( ) ? ; let is_caller_owner = accounts . preprocess ( ) ? ;"):
+        die(f"{a.rel}:{cl['line']}: Close::close no longer starts with `validate()?; preprocess()?`")
+    if t.count("accounts . process (") != 1 or t.index("accounts . process (") < t.index("accounts . preprocess ( ) ?"):
+        die(f"{a.rel}:{cl['line']}: Close::close processes before the permission check")
+    _close_checked.append(True)
+
+
+def handler_auth(pname, lib, f, btxt, ctx, files, fn_index, role):
+    """authority check performed INSIDE the handler, as a Lean `HandlerAuth` term"""
+    name = f["name"]
+    if btxt.startswith("internal :: Close :: close ( & ctx ,"):
+        check_close_trait()
+        impls = [(s, lo, hi) for s in files for h, lo, hi in s.impls() if re.search(r"\bClose <", h) and re.search(rf"for {ctx}\b", h)]
+        if len(impls) != 1: die(f"{lib.rel}:{f['line']}: {name}: expected one `impl internal::Close for {ctx}`, found {len(impls)}")
+        s, lo, hi = impls[0]
+        er = [x for x in s.fns(lo, hi) if x["name"] == "expected_keeper_role"]
+        m = er and re.fullmatch(r"RoleKey :: (\w+)", s.text_of(*er[0]["body"]))
+        if not m: die(f"{s.rel}: impl Close for {ctx}: expected_keeper_role is not `RoleKey::X`")
+        skip = [x for x in s.fns(lo, hi) if x["name"] == "skip_completion_check_for_keeper"]
+        for forbidden in ("preprocess", "close"):
+            if [x for x in s.fns(lo, hi) if x["name"] == forbidden]:
+                die(f"{s.rel}: impl Close for {ctx} overrides `{forbidden}` (the policy is no longer the trait's)")
+        return f".closeOwnerOrKeeper .{L.ident(role(m.group(1)))} {str(bool(skip)).lower()}"
+    callees = re.findall(r"((?:\w+ :: )*\w+) \(", btxt)
+    for c in callees:
+        last = c.split(" :: ")[-1]
+        for s, cf in fn_index.get(last, []) if len(fn_index.get(last, [])) <= 2 else []:
+            if cf["body"] is None: continue
+            t = s.text_of(*cf["body"])
+            if ". validate_claim_fees_address ( ctx . accounts . authority . key ) ?" in t:
+                if not t.startswith("ctx . accounts . store . load ( ) ? . validate_not_restarted ( ) ? . validate_claim_fees_address ( ctx . accounts . authority . key ) ? ;"):
+                    die(f"{s.rel}:{cf['line']}: {last}: the receiver check is not the first statement")
+                st = Src("programs/store/src/states/store.rs")
+                v = st.find_fn("validate_claim_fees_address", nested=True)
+                if st.text_of(*v["body"]) != "require ! ( self . treasury . is_receiver ( address ) , CoreError :: PermissionDenied ) ; Ok ( ( ) )":
+                    die(f"{st.rel}:{v['line']}: validate_claim_fees_address body changed")
+                ir = st.find_fn("is_receiver", nested=True)
+                if st.text_of(*ir["body"]) != "self . receiver == * address": die(f"{st.rel}:{ir['line']}: Treasury::is_receiver body changed")
+                return ".treasuryReceiver"
+            if t.startswith("validate_timelocked_role ( & ctx , role ) ? ;"):
+                vt = [x for x in fn_index.get("validate_timelocked_role", [])]
+                if len(vt) != 1: die(f"{s.rel}: validate_timelocked_role not found")
+                vs, vf = vt[0]
+                if not vs.text_of(*vf["body"]).startswith("let timelocked_role = roles :: timelocked_role ( role ) ; CpiAuthenticate :: only ( ctx , & timelocked_role ) ? ;"):
+                    die(f"{vs.rel}:{vf['line']}: validate_timelocked_role body changed")
+                return ".timelockedRole"
+    return ".none"
+
+
 def main():
     gdefs = guard_defs()
     rows = []
@@ -194,7 +261,8 @@ def main():
                     if re.search(rf"has_one = {sg}\b", a) or re.search(rf"\b{sg} \. key \( \)", a) or re.search(rf"\b{sg} \. key\b", a) \
                             or re.search(rf"address = \w+ \. (?:load \( \) \? \. )?{sg}\b", a):
                         if fname not in owner_bound: owner_bound.append(fname)
-            rows.append(dict(program=pname, name=name, attr=attr_roles, attr_txt=attr_txt, doc=doc_roles, handler=handler_roles,
+            hauth = handler_auth(pname, lib, f, btxt, ctx, files, fn_index, role)
+            rows.append(dict(hauth=hauth, program=pname, name=name, attr=attr_roles, attr_txt=attr_txt, doc=doc_roles, handler=handler_roles,
                              unchecked=unchecked, ctx=ctx, signers=signers, owner_bound=owner_bound, writable=writable, line=f["line"]))
 
     # ---- emit
@@ -204,6 +272,14 @@ def main():
     o.append(L.enum("Role", roles_seen, doc="role names appearing in guards or docs"))
     ids = [f"{r['program']}_{r['name']}" for r in rows]
     o.append(L.enum("IxId", ids, names=[f"{r['program']}::{r['name']}" for r in rows], doc="one constructor per instruction"))
+    o.append("/-- authority check performed inside the handler (extracted from the callee / the `Close` trait) -/\n"
+             "inductive HandlerAuth where\n  | none\n"
+             "  /-- `Close::close`: `preprocess()` = signer is the action's owner, or has `role` and (completion check skipped or the action is completed/cancelled) -/\n"
+             "  | closeOwnerOrKeeper (role : Role) (skipsCompletionCheck : Bool)\n"
+             "  /-- first statement: `store.validate_claim_fees_address(authority)` = `treasury.receiver == authority` else PermissionDenied -/\n"
+             "  | treasuryReceiver\n"
+             "  /-- first statement: `validate_timelocked_role(ctx, role)` = `CpiAuthenticate::only(ctx, timelocked_role(role))` -/\n"
+             "  | timelockedRole\n  deriving DecidableEq, Repr\n")
     o.append("structure Info where\n  program : Program\n  /-- roles accepted by `#[access_control(..)]` (any of); `none` = no attribute -/\n  attr : Option (List Role)\n"
              "  /-- roles named in the instruction's own `# Errors` / `# Accounts` doc sections -/\n  docRoles : List Role\n"
              "  /-- roles checked inside the handler it calls -/\n  handlerRoles : List Role\n  callsUnchecked : Bool\n"
@@ -218,6 +294,10 @@ def main():
         o.append(f"  | .{L.ident(i)} => ⟨.{r['program']}, {attr}, {rl(r['doc'])}, {rl(r['handler'])}, {str(r['unchecked']).lower()}, "
                  f"{len(r['signers'])}, {len(r['owner_bound'])}, {str(r['writable']).lower()}⟩")
     o.append("")
+    o.append("def handlerAuth : IxId → HandlerAuth")
+    for r, i in zip(rows, ids):
+        if r["hauth"] != ".none": o.append(f"  | .{L.ident(i)} => {r['hauth']}")
+    o.append("  | _ => .none\n")
     o.append("end Gmx.Gen.Access\n")
     L.write_if_changed("Access.lean", "\n".join(o))
     return rows
